@@ -159,16 +159,27 @@ def payloads(endpoint, ids, tokens):
     base_form = {'title': 'changed title', 'directory': 'bbbchanged', 'hkid': '0123456789012345678901234567890a',
                  'hkey': '0123456789012345678901234567890b', 'new_key': '1', 'marlin_la_url': '', 'playready_la_url': '',
                  'depth': '77', 'abr': 'on', 'ajax': '1'}
-    toks = list(dict.fromkeys(tokens.values())) or [None]
-    out = []
-    for t in toks[:4]:
-        j = dict(base_json)
-        f = dict(base_form)
-        if t:
-            j['csrf_token'] = t
-            f['csrf_token'] = t
-        out.append(('json', j, t))
-        out.append(('form', f, t))
+    # bodies a well-informed client would send to particular endpoints
+    special = []
+    if endpoint == 'api-add-mps':
+        special.append({'name': 'brandnew', 'title': 'brand new mps', 'options': None, 'pk': None,
+                        'periods': [{'pid': 'p1', 'pk': None, 'ordering': 1, 'stream': ids.get('spk'), 'start': 'PT0S',
+                                     'duration': 'PT10S', 'tracks': [{'track_id': 1, 'role': 1, 'encrypted': False,
+                                                                       'lang': None, 'pk': None, 'enabled': True}]}]})
+        special.append({'name': 'brandnew2', 'title': 'brand new mps', 'options': None, 'pk': None, 'periods': []})
+    if endpoint == 'api-edit-mps':
+        special.append({'name': 'mps1', 'title': 'retitled by a stranger', 'options': None, 'pk': ids.get('mps_pk'), 'periods': []})
+    if endpoint in ('api-edit-user', 'edit-user', 'api-edit-self'):
+        for claim in (ids.get('self_pk'), ids.get('upk')):
+            special.append({'pk': claim, 'username': 'victim', 'email': 'taken.over@example.test', 'password': 'Attacker#12345',
+                            'confirmPassword': 'Attacker#12345', 'mustChange': False, 'adminGroup': True, 'mediaGroup': True,
+                            'userGroup': True})
+    if endpoint == 'api-list-users':
+        special.append({'username': 'mallory', 'email': 'mallory@example.test', 'password': 'pw12345678',
+                        'confirmPassword': 'pw12345678', 'adminGroup': True, 'mediaGroup': True, 'userGroup': True})
+    out = [('json', sp, True) for sp in special]
+    out.append(('json', dict(base_json), False))
+    out.append(('form', dict(base_form), False))
     return out
 
 
@@ -185,6 +196,9 @@ def access_sweep(ctx, env):
                'mps_name': 'mps1', 'ppk': 1, 'segnum': 1, 'publish': 1700000000, 'username': 'user',
                'upk': m.User.get(username='user').pk}
         guest_pk = m.User.get_guest_user().pk
+        other_pks = {'user': m.User.get(username='media').pk, 'media': m.User.get(username='admin').pk}
+        mps = m.MultiPeriodStream.get(name='mps1')
+        ids['mps_pk'] = mps.pk if mps else None
     reached = 0
     n_req = 0
     table_rows_hit = {}
@@ -193,7 +207,8 @@ def access_sweep(ctx, env):
         actor = Actor(env, role)
         for rule in rules:
             # the anonymous client acts as the built-in guest account: aim at that account too
-            url = url_for_rule(rule, dict(ids, upk=guest_pk) if role == 'anonymous' else ids)
+            rids = dict(ids, upk=guest_pk) if role == 'anonymous' else dict(ids, upk=other_pks[role], self_pk=actor.user_pk)
+            url = url_for_rule(rule, rids)
             cls = getattr(env.app.view_functions.get(rule.endpoint), 'view_class', None)
             methods = [x for x in ('GET', 'HEAD', 'POST', 'PUT', 'DELETE')]
             if role == 'media':
@@ -203,13 +218,27 @@ def access_sweep(ctx, env):
             for method in methods:
                 if ctx.quick() and method == 'HEAD':
                     continue
-                tokens = dict(actor.csrf)
-                if method in ('POST', 'PUT', 'DELETE'):
-                    tokens.update(actor.harvest(url))
-                bodies = [('none', None, None)] if method in ('GET', 'HEAD') else payloads(rule.endpoint, ids, tokens)
-                if method == 'DELETE':
-                    bodies = [('none', None, t) for t in list(dict.fromkeys(tokens.values()))[:4]] or [('none', None, None)]
-                for kind, body, tok in bodies:
+                def fresh_tokens():
+                    actor.refresh_tokens()
+                    t = dict(actor.csrf)
+                    if method in ('POST', 'PUT', 'DELETE'):
+                        t.update(actor.harvest(url))
+                    return t
+                if method in ('GET', 'HEAD'):
+                    plan = [('none', None, None)]
+                else:
+                    names = list(fresh_tokens()) or [None]
+                    templates = [('none', None, False)] if method == 'DELETE' else payloads(rule.endpoint, rids, {})
+                    plan = []
+                    for kind, body, is_special in templates:
+                        for nm in (names if (is_special or method == 'DELETE') else names[:2]):
+                            plan.append((kind, body, nm))
+                for kind, body, tokname in plan:
+                    tok = None
+                    if tokname is not None:
+                        tok = fresh_tokens().get(tokname)
+                    if body is not None and tok:
+                        body = dict(body, csrf_token=tok)
                     before = fingerprint(env)
                     kw = {'headers': actor.headers(ajax=(kind != 'form'))}
                     u = url
@@ -242,9 +271,6 @@ def access_sweep(ctx, env):
                                           % (method, u, role, status, ', '.join(changed), need), inp)
                             # a lesser role changed state: everything after this runs on a dirty store
                             return ('dirty', n_req, reached, table_rows_hit)
-                    # tokens are single use: refresh what we can
-                    if tok:
-                        actor.refresh_tokens()
     return ('clean', n_req, reached, table_rows_hit)
 
 
@@ -343,15 +369,21 @@ def csrf_suite(ctx, env):
                 ck, sv, tok = rng.choice(issued)
                 calls.append((None if rng.random() < 0.5 else '', sv, tok, 'no-cookie'))
         # implementation
+        spellings = [rng.choice([0, 0, 1, 2]) for _ in calls]
         got = []
         with app.app_context():
             env.models.Token.prune_database(all_csrf=True, session=env.models.db.session)
             env.models.db.session.commit()
-        for ck, sv, tok, kind in calls:
+        for ci, (ck, sv, tok, kind) in enumerate(calls):
             hdr = {} if ck is None else {'Cookie': 'csrf=' + ck}
+            # the same token can be submitted in several spellings: as issued (percent-encoded),
+            # decoded, or with lower-case escapes - it is one token
+            spell = spellings[ci]
+            sub = urllib.parse.quote(tok) if spell == 0 else tok if spell == 1 else re.sub(
+                r'%[0-9A-F]{2}', lambda mm: mm.group(0).lower(), urllib.parse.quote(tok, safe=''))
             with app.test_request_context('/', headers=hdr):
                 try:
-                    CsrfProtection.check(sv, urllib.parse.quote(tok))
+                    CsrfProtection.check(sv, sub)
                     got.append(1)
                 except (CsrfFailureException, ValueError):
                     got.append(0)
